@@ -75,6 +75,16 @@ def _roundtrip(ctx, label, arrays_kw, boundaries=(), with_sources=True, sym=(0, 
     it.ext_handlers["np.linalg.solve"] = _solve
     if nonuniform:
         metric_stub(it)  # one distinct scale atom per (axis, stencil); its value is C01's rule R1.3
+
+        def widths(it_, a, k):
+            # per-axis cell widths on the padded window: one symbol per axis that varies along that axis only
+            from ..ndarr import field_atom
+            from ..scene import SP
+
+            padded = tuple(d.with_(lo=d.lo - 1, hi=d.hi + 1) for d in SP)
+            return tuple(NdArr((), [field_atom(f"aw{ax}", (0, 0, 0), (ax,))], padded) for ax in range(3))
+
+        stub_repo_calls(it, {"fdtdx.fdtd.update.get_anisotropic_averaging_widths": widths})
     grid = Obj(None, {"min_spacing": Rat.atom("res")}, "grid") if nonuniform else None
     cfg = sc.config(symmetry=sym, has_nonuniform_grid=nonuniform, resolved_grid=grid)
     bs = [sc.boundary(q, a, d, **(dict(bkw, _config=cfg) if bkw else {})) for (q, a, d) in boundaries]
@@ -170,6 +180,9 @@ def _scenarios(tier):
     sc.append(("roundtrip:full-eps", dict(eps_comps=9, mu_comps=3), {}))
     sc.append(("roundtrip:full-mu", dict(eps_comps=3, mu_comps=9), {}))
     sc.append(("roundtrip:full-both", dict(eps_comps=9, mu_comps=9), dict(with_sources=False)))
+    # full tensors on a non-uniform grid: the off-diagonal averages are weighted by the cell widths
+    sc.append(("roundtrip:nonuniform:full-eps", dict(eps_comps=9, mu_comps=3), dict(nonuniform=True, with_sources=False)))
+    sc.append(("roundtrip:nonuniform:full-mu", dict(eps_comps=3, mu_comps=9), dict(nonuniform=True, with_sources=False)))
     n2 = len(sc)
     if tier == "thorough":
         # heavier compositions: Bloch phases on two and three axes at once (minutes)
@@ -293,3 +306,31 @@ def _source_classes(ctx):
     from . import c10
 
     c10.source_linearity(ctx, rule="R2.5", for_c02=True)
+
+
+# ---------------------------------------------------------------------- reuse by C03 / C04
+SHARED_SCENES = [
+    ("roundtrip:diag:lossless", dict(eps_comps=3, mu_comps=3), {}),
+    ("roundtrip:full-eps", dict(eps_comps=9, mu_comps=3), dict(with_sources=False)),
+    ("roundtrip:full-mu", dict(eps_comps=3, mu_comps=9), dict(with_sources=False)),
+    ("roundtrip:nonuniform:full-eps", dict(eps_comps=9, mu_comps=3), dict(nonuniform=True, with_sources=False)),
+    ("roundtrip:nonuniform:full-mu", dict(eps_comps=3, mu_comps=9), dict(nonuniform=True, with_sources=False)),
+    ("roundtrip:nonuniform:diag", dict(eps_comps=3, mu_comps=3), dict(nonuniform=True)),
+]
+
+
+def _shared_job(ctx, payload):
+    _one(ctx, SHARED_SCENES[payload])
+
+
+def reverse_is_inverse(ctx, rule):
+    """The reverse step undoes the forward step on the lossless tiers the reconstruction relies on (rule ids of
+    C02 relabelled for the calling check)."""
+    from .. import par
+
+    n0 = len(ctx.obligations)
+    err = par.run_jobs(ctx, "sa.checks.c02", "_shared_job", list(range(len(SHARED_SCENES))), [s_[0] for s_ in SHARED_SCENES])
+    for o in ctx.obligations[n0:]:
+        o.rule = rule
+    if err:
+        raise AnalysisError(err)
